@@ -278,6 +278,11 @@ def sparse_header(p, gd_offset=None):
     struct.pack_into('<Q', hdr, 64, 128)
     hdr[72] = 0
     hdr[73:77] = b'\n \r\n'
+    # compressAlgorithm (u16 at 77) and the pad bytes up to 512: nothing the
+    # properties speak of, so any value may stand there
+    tail = p.get('hdr_tail')
+    if tail:
+        hdr[77:512] = fill(tail, 435)
     return hdr
 
 
